@@ -4,6 +4,7 @@ HERE = os.path.dirname(os.path.abspath(__file__))
 VERIF = os.path.dirname(HERE)
 props = [json.loads(l) for l in open(os.path.join(VERIF, 'properties.jsonl'))]
 CLAIMS = {
+    'C19': 'PARTIAL -- the QUIC connector\'s shared-connection cache only: get_connection dials exactly when nothing is cached, caches what it dialled, leaves nothing cached after a failed dial, always comes back; connect forgets the shared connection whenever a request over it fails with a connection-level ("quic:") error, keeps it after a success, and reports the failure. These are necessary conditions for "new requests succeed again without a restart"; detection of a dead connection in time, the number of attempts, other connectors and tunnels open across the outage are NOT decided',
     'C09': 'PARTIAL -- the operator tables only: every binary operator spelling of the documented table (milu/readme.md) is listed by a precedence level of the parser and is the token that level\'s alt list (ordered choice of prefix matches, read from the MIR of op_N) picks on every input that starts with it; the levels are nested in the documented precedence order; parse2 has a constructor for every token the levels can produce. NOT decided: the rest of the grammar, whitespace/comments, and that minimally parenthesised expressions parse like fully parenthesised ones (that needs nom\'s combinators themselves)',
     'C14': 'PARTIAL -- lock-discipline kernels only: the API handlers get_alive / get_history / get_rules / post_rules never hold a registry lock (live map, history list, rule list) across any other await, and h11c_handshake (HTTP and QUIC listeners) never holds the connection\'s lock while waiting for bytes from the client; decided as trace properties (acquire / await / drop order) of each function\'s MIR. These are sufficient conditions for "one stalled client cannot make others wait through these locks"; bounded completion time, lock fairness and multi-task scheduling are NOT decided',
     'C10': 'PARTIAL -- the accept step of the reverse UDP listener only: every datagram udp_accept accepts is handed to exactly one session, the one keyed by the datagram\'s (v4-mapped) source address, including the datagram that opens the session; a new session is registered with the channel its reader listens on. NOT decided: SOCKS5 UDP associate, tproxy UDP, UDP over HTTP/QUIC hops, the reply path and its labelling, anything involving more than one task',
@@ -46,7 +47,7 @@ NA = {
     'C09': 'superseded: partial check built (operator tables)',
     'C10': 'superseded: partial check built (reverse UDP accept step)',
     'C14': 'superseded: partial check built (lock-discipline kernels)',
-    'C19': 'recovery after an upstream outage: quantifies over fault sequences in time across processes; no sequential kernel decides it',
+    'C19': 'superseded: partial check built (QUIC connection cache)',
     'C16': 'check not built yet in this session (dispatcher lifecycle obligations exist inside the C02/C06 runs; a dedicated check is planned)',
     'C08': 'check not built yet in this session (milu operator kernels; planned)',
     'C18': 'check not built yet in this session (loader panic sites; planned)',
